@@ -134,8 +134,17 @@ def o5(tier):
     return r
 
 
+def o6(tier):
+    """a refused commit leaves no snapshot behind: a restart would re-load it as an entry without timestamp that shadows the real commit of that epoch"""
+    from props import C05
+    r = C05.o3(tier)
+    r.oid = 'O6'
+    r.title = 'process_commit (shared with C05-O3): both validators run before create_snapshot and a refusal returns without any write, so no snapshot exists for a commit that was never applied (after a restart such a snapshot would be hydrated with timestamp 0 and block the MIP-03 comparison for its epoch)'
+    return r
+
+
 def run(tier, seed, only=None):
-    obs = [('O1', o1), ('O2', o2), ('O3', o3), ('O4', o4), ('O5', o5)]
+    obs = [('O1', o1), ('O2', o2), ('O3', o3), ('O4', o4), ('O5', o5), ('O6', o6)]
     out = []
     for k, f in obs:
         if only and k not in only:
